@@ -94,6 +94,30 @@ type C16 struct{ Tier string }
 // transcripts of the clean reference session per direction.
 func DrawFaults(t *rt.Tape, cleanGE, cleanEG []byte) (ge, eg []simnet.Fault, desc []string) {
 	lenGE, lenEG := len(cleanGE), len(cleanEG)
+	if t.Choose(rt.SFault, 8) == 0 {
+		// a periodic corruption: the same mask on every p-th byte of a region (a frame mask that was
+		// left on, an inverted region, a stuck bit of a bus) - p = 1, 2, 4, 8, 16, 32; 2 to 64 hits
+		dir := t.Choose(rt.SFault, 2)
+		l := []int{lenGE, lenEG}[dir]
+		if l > 0 {
+			p := 1 << t.Choose(rt.SFault, 6)
+			cnt := 2 + t.Choose(rt.SFault, 63)
+			mask := []byte{0x80, 0x01, 0xff, byte(1 + t.Choose(rt.SFault, 255))}[t.Choose(rt.SFault, 4)]
+			start := t.Choose(rt.SFault, l)
+			if t.Choose(rt.SFault, 2) == 0 { // towards the tail: the returned labels, the result
+				start = max(0, l-p*cnt-t.Choose(rt.SFault, 64))
+			}
+			var fs []simnet.Fault
+			for i := 0; i < cnt && start+i*p < l; i++ {
+				fs = append(fs, simnet.Fault{Kind: simnet.FaultFlip, Off: uint64(start + i*p), Mask: mask})
+			}
+			desc = []string{fmt.Sprintf("%s xor %#02x on every %d-th byte from %d, %d times (of %d bytes)", []string{"G->E", "E->G"}[dir], mask, p, start, len(fs), l)}
+			if dir == 0 {
+				return fs, nil, desc
+			}
+			return nil, fs, desc
+		}
+	}
 	n := 1
 	if t.Choose(rt.SFault, 6) == 0 {
 		n = 2 + t.Choose(rt.SFault, 3)
